@@ -224,15 +224,53 @@ def fRun (st : FSt) : Str → FSt × Str
 /-- `strtod` consumes the whole accumulated text -/
 def FSt.accepts (st : FSt) : Bool := st.mant && (!st.sci || st.expDig)
 
+/-- Does the accepted literal `acc` (`[sign] digits [. digits] [e [sign] digits]`) round to infinity in a
+    binary format whose largest finite value is `(2^p − 1)·2^(emax+1−p)`?  Exactly when its value is at
+    least the midpoint `2^(emax+1) − 2^(emax−p)` between that value and `2^(emax+1)`.
+    (`__convert_to_v`: `strtod`/`strtof` returning ±HUGE_VAL ⇒ ±max and failbit.) -/
+def overflowsTo (p emax : Nat) (acc : Str) : Bool :=
+  let body := if acc.head? == some cPlus || acc.head? == some cMinus then acc.tail else acc
+  let ip := body.takeWhile isDigit
+  let r1 := body.dropWhile isDigit
+  let fp := if r1.head? == some cDot then r1.tail.takeWhile isDigit else []
+  let r2 := if r1.head? == some cDot then r1.tail.dropWhile isDigit else r1
+  let er := if r2.head? == some 101 then r2.tail else []
+  let eneg := er.head? == some cMinus
+  let ed := if er.head? == some cPlus || eneg then er.tail else er
+  let m := digitsVal (ip ++ fp)
+  let thr := 2 ^ (emax + 1) - 2 ^ (emax - p)
+  if m == 0 then false
+  else if ed.length > 7 then !eneg            -- |exponent| ≥ 10^7: far outside either format
+  else
+    let e := digitsVal ed
+    -- value = m · 10^(±e − |fp|)
+    if eneg then thr * 10 ^ (e + fp.length) ≤ m
+    else if fp.length ≤ e then thr ≤ m * 10 ^ (e - fp.length)
+    else thr * 10 ^ (fp.length - e) ≤ m
+
+inductive FltTy | f32 | f64
+deriving DecidableEq, Repr
+
+def FltTy.overflows : FltTy → Str → Bool
+  | .f32, a => overflowsTo 24 127 a
+  | .f64, a => overflowsTo 53 1023 a
+
+/-- the token `ostream <<` prints for ±max of the type (default precision) -/
+def FltTy.maxTok : FltTy → Str
+  | .f32 => kw "3.40282e+38"
+  | .f64 => kw "1.79769e+308"
+
 /-- `is >> x` for `float` / `double`: `some tok` = the token read (`"0"` + failbit when it is not a
-    number), `none` = untouched -/
-def extractFloat (s : IStream) : Option Str × IStream :=
+    number, ±max + failbit when it is too large), `none` = untouched -/
+def extractFloat (ty : FltTy) (s : IStream) : Option Str × IStream :=
   match sentry s with
   | (s1, false) => (none, s1)
   | (s1, true) =>
     let (st, r) := fRun {} s1.rest
-    if st.accepts then (some st.acc, { rest := r, eof := r.isEmpty })
-    else (some [cZero], { rest := r, eof := r.isEmpty, fail := true })
+    if !st.accepts then (some [cZero], { rest := r, eof := r.isEmpty, fail := true })
+    else if ty.overflows st.acc then
+      (some ((if st.acc.head? == some cMinus then [cMinus] else []) ++ ty.maxTok), { rest := r, eof := r.isEmpty, fail := true })
+    else (some st.acc, { rest := r, eof := r.isEmpty })
 
 /-! ### value types (TypeNames.cc) -/
 
